@@ -100,6 +100,16 @@ def main():
         raise SystemExit("extract_tables: branching bound of DSyms::children not found")
     vmax = int(vmx.group(1))
 
+    new_body = fn_body(gen, r"fn\s+new\s*\(dset:\s*&SimpleDSet,\s*geoms:\s*Geometries\)\s*->\s*DSymBackTracking\s*\{")
+    cm = re.search(r"base_curvature\s*<\s*0\s*\{\s*base_curvature\s*\}\s*else\s*\{\s*([^/\n}]+(?:/\s*\d+)?)", new_body)
+    if not cm:
+        raise SystemExit("extract_tables: lower curvature cut-off of DSymBackTracking::new not found")
+    min_hyp_cutoff = int(eval(cm.group(1).strip().replace("CURV_FAC", str(curv_fac)).replace("/", "//")))
+    bm = re.search(r"let\s+mut\s+base_curvature\s*=\s*-CURV_FAC\s*/\s*(\d+)\s*\*\s*dset\.size\(\)", new_body)
+    if not bm:
+        raise SystemExit("extract_tables: base curvature per chamber not found")
+    chamber_div = int(bm.group(1))
+
     # --- delaney3d.rs
     pg = strings_in(fn_body(d3, r"fn\s+point_groups\s*\(\)\s*->\s*Vec<String>\s*\{"))
     ct_body = fn_body(d3, r"fn\s+core_type_by_size\s*\(n:\s*usize\)\s*->\s*String\s*\{")
@@ -153,6 +163,10 @@ def main():
     L.append("/-- `compute_vmins`: (orbit length r, minimal v) pairs and the default -/")
     L.append("def vminRules : List (Nat × Nat) := " + lean_list([f"({a}, {b})" for a, b in vm_rules]))
     L.append(f"def vminDefault : Nat := {vm_default}")
+    L.append("/-- lower curvature cut-off used when the base curvature is non-negative (`new`) -/")
+    L.append(f"def minHypCutoff : Int := {min_hyp_cutoff}")
+    L.append("/-- base curvature is `-CURV_FAC / N * size`: the N -/")
+    L.append(f"def chamberDivisor : Int := {chamber_div}")
     L.append("/-- upper end of `for v in vmin..=N` in `children` -/")
     L.append(f"def genVMax : Nat := {vmax}")
     L.append("")
